@@ -41,6 +41,7 @@ pub struct Stats {
 fn graph_hash(c: &CaseSpec) -> u64 {
     let mut h = Fnv::new();
     h.usize(c.graph.fns.len());
+    h.u8(c.graph.provenance);
     for f in &c.graph.fns {
         h.u64(f.reads as u64);
         h.u64(f.writes as u64);
